@@ -186,7 +186,8 @@ func b2i(b bool) int64 {
 }
 
 type stOutcome struct {
-	ret   stVal
+	ret   stVal   // the single result, when there is exactly one
+	rets  []stVal // all results
 	after int64
 }
 
@@ -227,7 +228,7 @@ func stateOutcomes(call *ssa.Call, field *types.Var, cur int64) ([]stOutcome, st
 			rec(append(append([]bool{}, prefix...), false))
 			return
 		}
-		o := stOutcome{after: e.cur}
+		o := stOutcome{after: e.cur, rets: rs}
 		if len(rs) == 1 {
 			o.ret = rs[0]
 		}
@@ -501,4 +502,229 @@ func ruleFailFastOnlyWhenClosed(r *Run, id string) {
 		})
 	}
 	r.Stat("status_refusals", n)
+}
+
+// pathsFrom walks fn's control flow from the instruction after start, deciding every If whose condition is computable
+// from the known values (results of an evaluated state call, constants, ==, !=, !) and exploring both edges of the
+// others. It reports, over all explored paths that reach `to`, whether `via` was passed on all of them, on none, or on
+// some ("all", "none", "mixed"; "unreached" when `to` is not reached at all).
+func pathsFrom(start ssa.Instruction, known map[ssa.Value]stVal, via, to ssa.Instruction) string {
+	val := func(v ssa.Value) stVal { return stVal{} }
+	var eval func(v ssa.Value, depth int) stVal
+	eval = func(v ssa.Value, depth int) stVal {
+		if depth > 8 {
+			return stVal{}
+		}
+		if k, ok := known[v]; ok {
+			return k
+		}
+		switch x := v.(type) {
+		case *ssa.Const:
+			if i, isI := constInt(x); isI {
+				return stVal{true, i}
+			}
+			if x.Value != nil && x.Value.Kind() == constant.Bool {
+				return stVal{true, b2i(x.Value.String() == "true")}
+			}
+		case *ssa.BinOp:
+			a, b := eval(x.X, depth+1), eval(x.Y, depth+1)
+			if a.known && b.known {
+				switch x.Op {
+				case token.EQL:
+					return stVal{true, b2i(a.v == b.v)}
+				case token.NEQ:
+					return stVal{true, b2i(a.v != b.v)}
+				}
+			}
+		case *ssa.UnOp:
+			if x.Op == token.NOT {
+				if a := eval(x.X, depth+1); a.known {
+					return stVal{true, b2i(a.v == 0)}
+				}
+			}
+		case *ssa.ChangeType:
+			return eval(x.X, depth+1)
+		case *ssa.Convert:
+			return eval(x.X, depth+1)
+		}
+		return stVal{}
+	}
+	_ = val
+	sawAll, sawNone, reached := false, false, false
+	type state struct {
+		b      *ssa.BasicBlock
+		i      int
+		passed bool
+	}
+	seen := map[state]bool{}
+	var walk func(st state, steps int)
+	walk = func(st state, steps int) {
+		if steps > 4000 || seen[st] {
+			return
+		}
+		seen[st] = true
+		passed := st.passed
+		for i := st.i; i < len(st.b.Instrs); i++ {
+			ins := st.b.Instrs[i]
+			if ins == via {
+				passed = true
+			}
+			if ins == to {
+				reached = true
+				if passed {
+					sawAll = true
+				} else {
+					sawNone = true
+				}
+				return
+			}
+			switch x := ins.(type) {
+			case *ssa.Return, *ssa.Panic:
+				return
+			case *ssa.If:
+				c := eval(x.Cond, 0)
+				if c.known {
+					if c.v != 0 {
+						walk(state{st.b.Succs[0], 0, passed}, steps+1)
+					} else {
+						walk(state{st.b.Succs[1], 0, passed}, steps+1)
+					}
+				} else {
+					walk(state{st.b.Succs[0], 0, passed}, steps+1)
+					walk(state{st.b.Succs[1], 0, passed}, steps+1)
+				}
+				return
+			case *ssa.Jump:
+				walk(state{st.b.Succs[0], 0, passed}, steps+1)
+				return
+			}
+		}
+	}
+	walk(state{start.Block(), instrIndex(start) + 1, false}, 0)
+	switch {
+	case !reached:
+		return "unreached"
+	case sawAll && sawNone:
+		return "mixed"
+	case sawAll:
+		return "all"
+	}
+	return "none"
+}
+
+// edgeReaches: starting on the control-flow edge from -> succ, can instruction target be reached when booleans and
+// small integers are propagated along the path (phi nodes take the value of the edge actually taken, conditions that
+// then become constant are decided)? This sees through the flag form of an early exit:
+//
+//	known := false; for … { if equal { known = true; break } }; if !known { target }
+func edgeReaches(from, succ *ssa.BasicBlock, target ssa.Instruction) bool {
+	type frame struct {
+		prev, b *ssa.BasicBlock
+		env     map[ssa.Value]stVal
+	}
+	var eval func(env map[ssa.Value]stVal, v ssa.Value, depth int) stVal
+	eval = func(env map[ssa.Value]stVal, v ssa.Value, depth int) stVal {
+		if depth > 8 {
+			return stVal{}
+		}
+		if k, ok := env[v]; ok {
+			return k
+		}
+		switch x := v.(type) {
+		case *ssa.Const:
+			if i, isI := constInt(x); isI {
+				return stVal{true, i}
+			}
+			if x.Value != nil && x.Value.Kind() == constant.Bool {
+				return stVal{true, b2i(x.Value.String() == "true")}
+			}
+		case *ssa.BinOp:
+			a, b := eval(env, x.X, depth+1), eval(env, x.Y, depth+1)
+			if a.known && b.known {
+				switch x.Op {
+				case token.EQL:
+					return stVal{true, b2i(a.v == b.v)}
+				case token.NEQ:
+					return stVal{true, b2i(a.v != b.v)}
+				}
+			}
+		case *ssa.UnOp:
+			if x.Op == token.NOT {
+				if a := eval(env, x.X, depth+1); a.known {
+					return stVal{true, b2i(a.v == 0)}
+				}
+			}
+		}
+		return stVal{}
+	}
+	seen := map[string]bool{}
+	steps := 0
+	var walk func(f frame) bool
+	walk = func(f frame) bool {
+		steps++
+		if steps > 3000 {
+			return true // give up: assume reachable
+		}
+		// phis take the value of the edge taken
+		env := f.env
+		copied := false
+		for _, ins := range f.b.Instrs {
+			phi, isPhi := ins.(*ssa.Phi)
+			if !isPhi {
+				break
+			}
+			for i, pr := range f.b.Preds {
+				if pr == f.prev && i < len(phi.Edges) {
+					if !copied {
+						ne := map[ssa.Value]stVal{}
+						for k, v := range env {
+							ne[k] = v
+						}
+						env, copied = ne, true
+					}
+					val := eval(f.env, phi.Edges[i], 0)
+					if val.known {
+						env[phi] = val
+					} else {
+						delete(env, phi)
+					}
+				}
+			}
+		}
+		key := fmt.Sprintf("%d<%d|", f.b.Index, f.prev.Index)
+		var ks []string
+		for k, v := range env {
+			if v.known {
+				ks = append(ks, fmt.Sprintf("%s=%d", k.Name(), v.v))
+			}
+		}
+		sort.Strings(ks)
+		key += fmt.Sprint(ks)
+		if seen[key] {
+			return false
+		}
+		seen[key] = true
+		for _, ins := range f.b.Instrs {
+			if ins == target {
+				return true
+			}
+			switch x := ins.(type) {
+			case *ssa.Return, *ssa.Panic:
+				return false
+			case *ssa.If:
+				c := eval(env, x.Cond, 0)
+				if c.known {
+					if c.v != 0 {
+						return walk(frame{f.b, f.b.Succs[0], env})
+					}
+					return walk(frame{f.b, f.b.Succs[1], env})
+				}
+				return walk(frame{f.b, f.b.Succs[0], env}) || walk(frame{f.b, f.b.Succs[1], env})
+			case *ssa.Jump:
+				return walk(frame{f.b, f.b.Succs[0], env})
+			}
+		}
+		return false
+	}
+	return walk(frame{from, succ, map[ssa.Value]stVal{}})
 }
